@@ -701,3 +701,141 @@ Proof.
   - apply nth_error_nth; auto.
   - apply nth_overflow. apply nth_error_None; auto.
 Qed.
+
+(* ---------- bulk load: dedup_sorted ---------- *)
+Lemma dedup_sorted_spec : forall l prev r, dedup_sorted prev l = Ok r ->
+  Forall (fun e => prev < it_key e) r /\ isrt r /\ zlen r <= zlen l /\
+  (forall e, In e r -> exists v, In (it_key e, v) l /\ it_val e = Some v) /\
+  Forall (fun p => prev <= fst p) l.
+Proof.
+  induction l as [|[k v] l IH]; intros prev r H.
+  - cbn in H. inversion H; subst. cbn. repeat split; auto; try lia; intros e [].
+  - cbn [dedup_sorted] in H. destruct (k <? prev) eqn:E1; [discriminate|].
+    destruct (k =? prev) eqn:E2.
+    + apply IH in H. destruct H as [Hf [Hs [Hz [Hin Hall]]]].
+      unfold zlen in *. cbn [length]. repeat split; auto; try lia.
+      * intros e He. destruct (Hin e He) as [v' [H1 H2]]. exists v'. split; [right|]; auto.
+      * constructor; [cbn; lia|auto].
+    + destruct (dedup_sorted k l) as [r'|] eqn:Er; [|discriminate]. cbn [bind] in H.
+      inversion H; subst; clear H. apply IH in Er. destruct Er as [Hf [Hs [Hz [Hin Hall]]]].
+      unfold zlen in *. cbn [length isrt]. repeat split; auto; try lia.
+      * constructor; [cbn; lia|]. eapply Forall_lt_trans; [|exact Hf]. lia.
+      * intros e [<-|He].
+        -- exists v. cbn. split; auto.
+        -- destruct (Hin e He) as [v' [H1 H2]]. exists v'. split; [right|]; auto.
+      * constructor; [cbn; lia|]. eapply Forall_impl; [|exact Hall]. cbn; intros; lia.
+Qed.
+
+(* ---------- the abstract map ---------- *)
+Fixpoint amsrt (m : amap) : Prop :=
+  match m with
+  | [] => True
+  | p :: t => Forall (fun q => fst p < fst q) t /\ amsrt t
+  end.
+
+Lemma am_find_insert : forall m k v q, am_find q (am_insert k v m) = if q =? k then Some v else am_find q m.
+Proof.
+  induction m as [|[k' v'] m IH]; intros k v q.
+  - cbn. destruct (q =? k); auto.
+  - cbn [am_insert]. destruct (k <? k') eqn:E1; [|destruct (k =? k') eqn:E2].
+    + cbn [am_find]. destruct (q =? k); auto.
+    + cbn [am_find]. destruct (q =? k) eqn:E3, (q =? k') eqn:E4; try lia; auto.
+    + cbn [am_find]. rewrite IH. destruct (q =? k) eqn:E3, (q =? k') eqn:E4; try lia; auto.
+Qed.
+
+Lemma am_find_none_gt : forall m q, Forall (fun p => q < fst p) m -> am_find q m = None.
+Proof.
+  induction m as [|[k v] m IH]; intros q H; [reflexivity|].
+  inversion H; subst. cbn in *. destruct (q =? k) eqn:E; [lia|auto].
+Qed.
+
+Lemma am_find_erase : forall m k q, amsrt m ->
+  am_find q (am_erase k m) = if q =? k then None else am_find q m.
+Proof.
+  induction m as [|[k' v'] m IH]; intros k q Hs.
+  - cbn. destruct (q =? k); auto.
+  - destruct Hs as [Hf Hs]. cbn [am_erase]. destruct (k =? k') eqn:E1.
+    + cbn [am_find]. destruct (q =? k) eqn:E2.
+      * apply am_find_none_gt. eapply Forall_impl; [|exact Hf]. cbn; intros; lia.
+      * destruct (q =? k') eqn:E3; [lia|auto].
+    + cbn [am_find]. rewrite IH by auto. destruct (q =? k) eqn:E2, (q =? k') eqn:E3; try lia; auto.
+Qed.
+
+Lemma am_insert_in : forall m k v p, In p (am_insert k v m) -> p = (k, v) \/ In p m.
+Proof.
+  induction m as [|[k' v'] m IH]; intros k v p H.
+  - cbn in H. destruct H as [<-|[]]; auto.
+  - cbn [am_insert] in H. destruct (k <? k'); [|destruct (k =? k')].
+    + destruct H as [<-|H]; auto.
+    + destruct H as [<-|H]; auto. right; right; auto.
+    + destruct H as [<-|H]; [right; left; auto|]. apply IH in H. destruct H; auto. right; right; auto.
+Qed.
+
+Lemma am_insert_sorted : forall m k v, amsrt m -> amsrt (am_insert k v m).
+Proof.
+  induction m as [|[k' v'] m IH]; intros k v Hs.
+  - cbn. auto.
+  - destruct Hs as [Hf Hs]. cbn [am_insert]. destruct (k <? k') eqn:E1; [|destruct (k =? k') eqn:E2].
+    + cbn [amsrt]. split; [|split; auto]. constructor; [cbn; lia|].
+      eapply Forall_impl; [|exact Hf]. cbn; intros; lia.
+    + cbn [amsrt]. split; auto. eapply Forall_impl; [|exact Hf]. cbn; intros; lia.
+    + cbn [amsrt]. split; [|apply IH; auto]. apply Forall_forall. intros p Hp.
+      apply am_insert_in in Hp. rewrite Forall_forall in Hf. destruct Hp as [->|Hp]; [cbn; lia|auto].
+Qed.
+
+Lemma am_erase_in : forall m k p, In p (am_erase k m) -> In p m.
+Proof.
+  induction m as [|[k' v'] m IH]; intros k p H; [destruct H|].
+  cbn [am_erase] in H. destruct (k =? k'); [right; auto|].
+  destruct H as [<-|H]; [left; auto|right; eapply IH; eauto].
+Qed.
+
+Lemma am_erase_sorted : forall m k, amsrt m -> amsrt (am_erase k m).
+Proof.
+  induction m as [|[k' v'] m IH]; intros k Hs; [cbn; auto|].
+  destruct Hs as [Hf Hs]. cbn [am_erase]. destruct (k =? k'); auto.
+  cbn [amsrt]. split; [|apply IH; auto]. apply Forall_forall. intros p Hp.
+  apply am_erase_in in Hp. rewrite Forall_forall in Hf. auto.
+Qed.
+
+Lemma am_bulk_sorted : forall l, amsrt (am_bulk l).
+Proof. induction l as [|p l IH]; cbn; auto. apply am_insert_sorted; auto. Qed.
+
+Lemma am_find_bulk_cons : forall k v l q,
+  am_find q (am_bulk ((k, v) :: l)) = if q =? k then Some v else am_find q (am_bulk l).
+Proof. intros k v l q. cbn [am_bulk fold_right fst snd]. apply am_find_insert. Qed.
+
+Lemma am_find_bulk_none : forall l q, Forall (fun p => fst p <> q) l -> am_find q (am_bulk l) = None.
+Proof.
+  induction l as [|[k v] l IH]; intros q H; [reflexivity|].
+  inversion H; subst. rewrite am_find_bulk_cons. cbn in *. destruct (q =? k) eqn:E; [lia|auto].
+Qed.
+
+Lemma dedup_lookup : forall l prev r, dedup_sorted prev l = Ok r ->
+  forall q, val_of (level_lookup r q) = if q <=? prev then None else am_find q (am_bulk l).
+Proof.
+  induction l as [|[k v] l IH]; intros prev r H q.
+  - cbn in H. inversion H; subst. cbn. destruct (q <=? prev); auto.
+  - pose proof (dedup_sorted_spec _ _ _ H) as [Hf _].
+    rewrite am_find_bulk_cons. cbn [dedup_sorted] in H.
+    destruct (k <? prev) eqn:E1; [discriminate|]. destruct (k =? prev) eqn:E2.
+    + rewrite (IH _ _ H q). destruct (q <=? prev) eqn:E3; auto. destruct (q =? k) eqn:E4; [lia|auto].
+    + destruct (dedup_sorted k l) as [r'|] eqn:Er; [|discriminate]. cbn [bind] in H.
+      inversion H; subst; clear H. rewrite lookup_cons. cbn [it_key].
+      pose proof (dedup_sorted_spec _ _ _ Er) as [_ [_ [_ [_ Hall]]]].
+      destruct (k =? q) eqn:E3.
+      * cbn. destruct (q <=? prev) eqn:E4; [lia|]. destruct (q =? k) eqn:E5; [auto|lia].
+      * rewrite (IH _ _ Er q). destruct (q =? k) eqn:E5; [lia|].
+        destruct (q <=? k) eqn:E6, (q <=? prev) eqn:E7; try lia; auto.
+        symmetry. apply am_find_bulk_none. eapply Forall_impl; [|exact Hall]. cbn; intros; lia.
+Qed.
+
+Lemma look_set_nth_repeat : forall n j (items : list item) k, (j < n)%nat ->
+  look_levels (set_nth (repeat [] n) j items) k = level_lookup items k.
+Proof.
+  induction n as [|n IH]; intros j items k Hj; [lia|].
+  destruct j as [|j]; cbn [repeat set_nth look_levels].
+  - rewrite look_all_empty; [destruct (level_lookup items k); auto|].
+    apply Forall_forall. intros l Hl. apply repeat_spec in Hl. auto.
+  - change (level_lookup [] k) with (@None item). apply IH. lia.
+Qed.
